@@ -116,7 +116,9 @@ def build_tomo(case, **kw):
     povms = [build.make(c_sys, "povm", np.concatenate([np.real(rm.vec(basis, e)) for e in p]), m=d) for p in pv_m]
     flag = case["flag"]
     kind = case["tomo"]
-    common = dict(on_para_eq_constraint=flag, seed_data=case.get("seed_data", 7))
+    from harness import reps
+
+    common = dict(on_para_eq_constraint=reps.flag(flag, kind + shape), seed_data=case.get("seed_data", 7))
     if case.get("eps_trunc") is not None:
         common["eps_truncate_imaginary_part"] = float(case["eps_trunc"])
     common.update(kw)
